@@ -169,12 +169,12 @@ TraceFail ==
 
 ------------------------------------------------------------------------------
 (* implementation level: one event per primitive call (hooked builds only)   *)
-KeyOfType(ty) == ty      \* "lab_types::Key" on both sides
+KeyOfType(ty) == ty      \* std::any::type_name on both sides (field `tyname` of the definition)
 \* The field a primitive touches is identified by (offset, size, type).  Several zero-size fields
 \* of one type can share an offset and are then indistinguishable in the event: a store goes to
 \* one that is not stored yet, a load / reference to one that is.
 FieldsAt(v, off, size, ty) ==
-  {f \in Range(FieldsOf(def, v)) : f.off = off /\ f.size = size /\ ("lab_types::" \o f.key) = ty}
+  {f \in Range(FieldsOf(def, v)) : f.off = off /\ f.size = size /\ f.tyname = ty}
 FieldAt(v, off, size, ty, cur, k, hint) ==
   LET c0 == FieldsAt(v, off, size, ty)
       \* a conversion only loads the removed fields and only stores the added ones
